@@ -23,6 +23,12 @@ class Inconclusive(Exception):
     """solver said unknown / cap reached: never counted as success."""
 
 
+class SliceMissing(Exception):
+    """an AST slice (statements lifted from the live source to run with symbolic sizes) is not present in this form
+    of the source: the job is not applicable to this implementation and says so; the executed jobs of the same check
+    carry the claim for concrete sizes"""
+
+
 class HarnessError(Exception):
     pass
 
